@@ -62,6 +62,13 @@ def lp_families(tier, seed):
     for c in fam.fam_split()[::3 if not th else 1]:
         if c['coupling'] in ('none', 'storage_start_eq_end') and not any(a['kind'] == 'orderbook' and a['fullexec'] for a in c['assets']):      # LPs only
             out.append(('split', c))
+    # conversion factors above one and nodes fed through lossy links only (the balance rows there have no coefficient 1)
+    for pr in ([1, 5, 2], [4, 1, 3]):
+        a = [F.multi(3, ['n1', 'n2'], [(1, 1), (2, 1)], 0, 1, pr), F.contract(3, 'n1', -2, 2, [3, 2, 4]), F.contract(3, 'n2', -3, 0, [1, 3, 2])]
+        out.append(('multi_factor2', F.make_cfg(700 + len(out), 3, a)))
+        a = [F.contract(3, 'n1', -2, 2, pr), F.transport(3, 'n1', 'n2', 0, 2, eff=(1, 2), cost=0), F.storage(3, 'n2', size=2, cin=1, cout=1, eff=(1, 2)),
+             F.transport(3, 'n2', 'n3', 0, 2, eff=(1, 2), cost=0), F.contract(3, 'n3', -1, 0, [6, 5, 7])]
+        out.append(('lossy_links', F.make_cfg(700 + len(out), 3, a)))
     # structured assets with internal nodes: the prices of the portfolio's own nodes must not be confused with those of internal nodes
     for c in fam.fam_structured()[seed % (4 if not th else 1)::(4 if not th else 1)]:
         out.append(('structured', c))
